@@ -214,24 +214,12 @@ func (x *Exec) par(f *frame, ins ssa.Instruction, fs SliceV, g *Term) {
 		}
 		noneStuck = u.And(noneStuck, u.Or(fin, blocked))
 	}
+	x.raceObligation(thrs, x.pos(ins.Pos()))
 	// deadlock: somebody is unfinished and every unfinished thread is parked at
 	// a blocking operation that is disabled in the final memory
 	x.Obligs = append(x.Obligs, Oblig{Kind: "deadlock", Cond: u.And(u.Not(allFin), noneStuck), NoFinish: true,
 		Msg: "deadlock or lost wake-up: every unfinished thread is parked at a disabled blocking operation", Pos: x.pos(ins.Pos())})
 }
-
-// ---------- race detection hooks (filled in by race.go) ----------
-
-type raceState struct{}
-
-func (x *Exec) raceAccess(p PtrV, n int, g *Term, write, atomic bool, pos token.Pos) {
-	if x.race == nil || x.thr == nil {
-		return
-	}
-	x.raceRecord(p, n, g, write, atomic, pos)
-}
-
-func (x *Exec) raceRecord(p PtrV, n int, g *Term, write, atomic bool, pos token.Pos) {}
 
 func (x *Exec) intrinsic2(f *frame, ins ssa.Instruction, fn *ssa.Function, name string, args []Value, g *Term) (Value, bool) {
 	return nil, false
